@@ -233,3 +233,7 @@ package specs
 //@ func encoding/json.Unmarshal
 //@ assigns pointee(v), lastUnmarshalTarget()
 //@ records lastUnmarshalTarget() == v
+
+// text form of a libp2p peer ID: a function of the ID
+//@ func github.com/libp2p/go-libp2p/core/peer.(ID).String
+//@ pure
